@@ -752,6 +752,59 @@ theorem step_stopping (cfg : Cfg) (s : Sys) (op : Op) (h : Stopping s) :
   have h2 := settle_stopping cfg _ h1.1
   exact ⟨h2.1, Nat.le_trans h2.2 h1.2⟩
 
+theorem gracefulStart_stopping (cfg : Cfg) (s : Sys) (hg : s.graceful = true) (hd : s.disabled ≠ 3) :
+    Stopping (s.gracefulStart cfg) ∧
+    (s.gracefulStart cfg).expireTs = (if cfg.gt = 0 then 0 else s.now + cfg.gt) ∧
+    (s.gracefulStart cfg).conns.length ≤ s.conns.length ∧ (s.gracefulStart cfg).now = s.now := by
+  unfold Sys.gracefulStart
+  rw [if_neg hd]
+  have hn := neutral_resetBacklog s
+  refine ⟨⟨?_, rfl, rfl⟩, rfl, ?_, ?_⟩
+  · simpa [Sys.closeListen] using hn.graceful.trans hg
+  · simpa [Sys.closeListen] using hn.conns_le
+  · simpa [Sys.closeListen] using hn.now
+
+/-- the main loop's reaction to the first graceful-shutdown signal -/
+theorem settle_graceful_first (cfg : Cfg) (s : Sys) (hg : s.graceful = true) (he : s.exited = false)
+    (hd : s.disabled ≠ 3) :
+    Stopping (s.settle cfg) ∧ (s.settle cfg).conns.length ≤ s.conns.length ∧
+    (s.settle cfg).expireTs = (if cfg.gt = 0 then 0 else s.now + cfg.gt) := by
+  have h1 := gracefulStart_stopping cfg s hg hd
+  unfold Sys.settle
+  rw [if_neg (by simp [he])]
+  unfold Sys.loopToRest
+  rw [if_pos hg]
+  unfold Sys.gracefulPass
+  simp only
+  generalize s.gracefulStart cfg = s1 at h1
+  have hn := neutral_sweep s1 (gracefulConn s1.expired)
+  have hs2 : Stopping (s1.sweep (gracefulConn s1.expired)).exitIfIdle ∧
+      (s1.sweep (gracefulConn s1.expired)).exitIfIdle.conns.length ≤ s1.conns.length ∧
+      (s1.sweep (gracefulConn s1.expired)).exitIfIdle.expireTs = s1.expireTs := by
+    unfold Sys.exitIfIdle
+    split
+    · exact ⟨⟨hn.graceful.trans h1.1.graceful, hn.disabled.trans h1.1.disabled, hn.backlog.trans h1.1.backlog⟩,
+        hn.conns_le, hn.expireTs⟩
+    · exact ⟨⟨hn.graceful.trans h1.1.graceful, hn.disabled.trans h1.1.disabled, hn.backlog.trans h1.1.backlog⟩,
+        hn.conns_le, hn.expireTs⟩
+  generalize (s1.sweep (gracefulConn s1.expired)).exitIfIdle = s2 at hs2
+  have h3 := halt_stopping s2 hs2.1
+  have h3e : s2.halt.expireTs = s2.expireTs := by unfold Sys.halt; split <;> rfl
+  have hm := neutral_markAccepted s2.halt
+  refine ⟨⟨hm.graceful.trans h3.1.graceful, hm.disabled.trans h3.1.disabled, hm.backlog.trans h3.1.backlog⟩, ?_, ?_⟩
+  · have := h1.2.2.1; have := hm.conns_le; have := h3.2; have := hs2.2.1; omega
+  · rw [hm.expireTs, h3e, hs2.2.2, h1.2.1]
+
+theorem gracefulConn_inflight (c : Conn)
+    (h : c.st = .write ∨ c.st = .readPost ∨ (c.st = .read ∧ (c.n ≤ 1 ∨ c.hdrBuf ≠ 0))) :
+    gracefulConn false c = some { c with keepAlive := false } := by
+  unfold gracefulConn
+  rcases h with h | h | ⟨h, h'⟩
+  · simp [h]
+  · simp [h]
+  · have : ¬ (c.n > 1 ∧ c.hdrBuf = 0) := by omega
+    simp [h, this]
+
 /-! ## size limits -/
 
 /-- a response that forbids keep-alive ends in the close state (or the connection is gone) -/
